@@ -187,6 +187,9 @@ def _style_declarations(base):
     if hasattr(base, 'style'):
         # e.g. the declarations of @page come before its margin rules
         yield base.style
+    if getattr(base, 'type', None) == css.CSSRule.VARIABLES_RULE:
+        # the values of an @variables rule
+        yield base.variables
     for rule in getattr(base, 'cssRules', ()):
         yield from _style_declarations(rule)
 
@@ -214,11 +217,11 @@ def getUrls(sheet):
 
 
 def _uri_values(style):
-    return (
-        value
-        for prop in style.getProperties(all=True)
-        for value in _nested_uri_values(prop.propertyValue)
-    )
+    if isinstance(style, css.CSSVariablesDeclaration):
+        values = [style._vars[name] for name in style.keys()]
+    else:
+        values = [prop.propertyValue for prop in style.getProperties(all=True)]
+    return (value for pv in values for value in _nested_uri_values(pv))
 
 
 def _nested_uri_values(values):
@@ -259,6 +262,9 @@ def replaceUrls(sheet, replacer, ignoreImportRules=False):
 
     for value in _flatten(map(_uri_values, _style_declarations(sheet))):
         value.uri = replacer(value.uri)
+    if hasattr(sheet, '_updateVariables'):
+        # the values var() resolves to are copies
+        sheet._updateVariables()
 
 
 @replaceUrls.register(css.CSSStyleDeclaration)
